@@ -908,7 +908,7 @@ func oneHandshakeBufs(clientComp, serverComp bool, sub string, size, level int, 
 }
 
 func run(c *hl.Ctx) {
-	c.Rule("E2: for every configuration (sender role x {compression not negotiated, negotiated with the library defaults, negotiated at levels -2/-1/0/1/9 (thorough: all 12) with write compression on and with EnableWriteCompression(false), negotiated but write-disabled} x write buffer {16,125,512,4096} x read buffer {128,4096}): every single message over sizes {0,1,125,126,W-1,W,W+1,2W,2(W+14),2(W+14)+1,65535,65536,65536+W} x {text,binary} x write API {WriteMessage, WriteString, ReadFrom, prepared, JSON, NextWriter with every 2-partition at the class boundaries, 1-byte partition}; every ordered pair (thorough: selected triples) of 11 branch-class messages; the sender's wire is parsed by an independent RFC 6455/7692 parser and the peer Conn reads the sequence back (ReadMessage and 1-byte NextReader reads alternating). Handshake sessions through Dialer.Dial/Upgrader.Upgrade over net.Pipe in all offer/enable/subprotocol combinations, and negotiated sessions x SetCompressionLevel(every level of the alphabet) on both ends x the server answering with {WriteMessage, NextWriter, prepared message}. Settings pairs: on one negotiated connection (client and server sender, W=16; thorough also 125) every ordered pair of messages over (SetCompressionLevel(level) x EnableWriteCompression(on/off) called just before the message) x 7 write APIs x sizes {0, 2(W+14)+1 (thorough: also W+1)}; RSV1 must not appear on a message written while write compression is off and every RSV1 message must inflate to the written payload. Shared prepared message: one PreparedMessage over sizes {0,1,125,126,4095,4096,4097,8221,65536} x {text,binary} written to connections A, B, A, B for every ordered pair of connection options (role x {not negotiated, negotiated defaults, negotiated x level x on/off}); each wire is parsed and read back. A case is non-trivial when all its messages were found on the wire by the independent parser and read back intact by the peer. state = dumped reader/writer state; transition = one message." + negotiationRule + readFromRule + abandonRule + bigFrameRule)
+	c.Rule("E2: for every configuration (sender role x {compression not negotiated, negotiated with the library defaults, negotiated at levels -2/-1/0/1/9 (thorough: all 12) with write compression on and with EnableWriteCompression(false), negotiated but write-disabled} x write buffer {16,125,512,4096} x read buffer {128,4096}): every single message over sizes {0,1,125,126,W-1,W,W+1,2W,2(W+14),2(W+14)+1,65535,65536,65536+W} x {text,binary} x write API {WriteMessage, WriteString, ReadFrom, prepared, JSON, NextWriter with every 2-partition at the class boundaries, 1-byte partition}; every ordered pair (thorough: selected triples) of 11 branch-class messages; the sender's wire is parsed by an independent RFC 6455/7692 parser and the peer Conn reads the sequence back (ReadMessage and 1-byte NextReader reads alternating). Handshake sessions through Dialer.Dial/Upgrader.Upgrade over net.Pipe in all offer/enable/subprotocol combinations, and negotiated sessions x SetCompressionLevel(every level of the alphabet) on both ends x the server answering with {WriteMessage, NextWriter, prepared message}. Settings pairs: on one negotiated connection (client and server sender, W=16; thorough also 125) every ordered pair of messages over (SetCompressionLevel(level) x EnableWriteCompression(on/off) called just before the message) x 7 write APIs x sizes {0, 2(W+14)+1 (thorough: also W+1)}; RSV1 must not appear on a message written while write compression is off and every RSV1 message must inflate to the written payload. Shared prepared message: one PreparedMessage over sizes {0,1,125,126,4095,4096,4097,8221,65536} x {text,binary} written to connections A, B, A, B for every ordered pair of connection options (role x {not negotiated, negotiated defaults, negotiated x level x on/off}); each wire is parsed and read back. A case is non-trivial when all its messages were found on the wire by the independent parser and read back intact by the peer. state = dumped reader/writer state; transition = one message." + negotiationRule + readFromRule + abandonRule + bigFrameRule + unclosedRule)
 	c.Assume(negotiationAssumptions...)
 	c.Assume("compress/flate's reader (used by the independent parser to inflate RSV1 messages) is correct", "SetCompressionLevel/EnableWriteCompression are only called between messages, as their documentation says (subsequent messages)", "mask keys are read from the wire, never predicted", "multi-megabyte messages are represented by 65536+W (thorough: 131072+W)", "the library never fragments below its buffer size, so partitions are chosen at buffer-relative boundaries")
 	cfgs := configs(c.Thorough())
@@ -963,6 +963,7 @@ func run(c *hl.Ctx) {
 	readFromFamily(c)
 	abandonFamily(c)
 	bigFrameFamily(c)
+	unclosedFamily(c)
 }
 
 func replay(c *hl.Ctx, raw json.RawMessage) {
@@ -994,6 +995,12 @@ func replay(c *hl.Ctx, raw json.RawMessage) {
 			panic(err)
 		}
 		oneAbandon(c, ac)
+	case "unclosed", "unclosed-handshake":
+		var uc UWCase
+		if err := json.Unmarshal(raw, &uc); err != nil {
+			panic(err)
+		}
+		oneUnclosed(c, uc)
 	case "bigframe":
 		var bc BFCase
 		if err := json.Unmarshal(raw, &bc); err != nil {
